@@ -3,8 +3,10 @@
 import sys, os, shutil, json, glob
 pid, m, pkg, det = sys.argv[1:5]
 needs = " ".join(sys.argv[5:])
-src = f"/tmp/mut/{pid}/out/{m}"
-dst = f"/verif/seeded/{pid}-{m}"
+root = os.environ.get("MUT_ROOT", "/tmp/mut")
+tag = os.environ.get("MUT_TAG", "")
+src = f"{root}/{pid}/out/{m}"
+dst = f"/verif/seeded/{pid}-{tag}{m}"
 os.makedirs(dst, exist_ok=True)
 shutil.copy(src + "/patch.diff", dst + "/patch.diff")
 for f in glob.glob(src + "/*_test.go") + glob.glob(src + "/README.md"):
@@ -14,7 +16,7 @@ meta = {
     "needs_to_manifest": needs,
     "demo": {"file": "demo_test.go.txt", "copy_to": pkg + "/zz_mutdemo_test.go", "cmd": f"go test -vet=off -count=1 -run '^Test' ./{pkg}/  (only the tests of the demo file are relevant)"},
     "confirmed": "tools/confirm_mutant.sh in scratch worktree: existing suite PASS with change; demo FAIL with change, PASS without",
-    "check_cmd": f"tools/try_mutant.sh seeded/{pid}-{m}/patch.diff {pid} quick",
+    "check_cmd": f"tools/try_mutant.sh seeded/{pid}-{tag}{m}/patch.diff {pid} quick",
     "detected_by_check": det,
 }
 json.dump(meta, open(dst + "/meta.json", "w"), indent=1)
